@@ -24,6 +24,9 @@ type CrashHistory struct {
 	Prep   []m.Op
 	Ops    []m.Op
 	Stride int // > 1: only every Stride-th store call is a crash point (histories with thousands of calls)
+	// MayFail: an operation of the history may be refused by the store (e.g. badger's transaction size limit); a
+	// refused operation must have no effect, also when the process dies while it is being attempted
+	MayFail bool
 }
 
 func copyFile(src, dst string) error {
@@ -54,9 +57,13 @@ func referenceRun(backend string, h *CrashHistory) (states []*m.DB, problems []F
 	states = append(states, model)
 	for _, o := range h.Ops {
 		res, next, fs := drv.Step(in, model, o)
+		if res.Err != nil && h.MayFail && res.Panic == nil {
+			states = append(states, model) // refused: no effect
+			continue
+		}
 		problems = append(problems, fs...)
 		if res.Err != nil {
-			problems = append(problems, Finding{Tag: "setup", Msg: fmt.Sprintf("history operation %s failed in the reference run: %v", o, res.Err)})
+			problems = append(problems, Finding{Tag: "setup", Msg: fmt.Sprintf("history operation %s failed in the reference run: %v", opSkel(o), res.Err)})
 		}
 		model = next
 		states = append(states, model)
@@ -351,6 +358,9 @@ func CrashKills(run *ev.Run, exe, backend string, hs []*CrashHistory, ownTags ma
 				inflight = i
 			case strings.HasPrefix(l, "ack "):
 				fmt.Sscanf(l, "ack %d", &i)
+				acked, inflight = i+1, -1
+			case strings.HasPrefix(l, "fail "):
+				fmt.Sscanf(l, "fail %d", &i)
 				acked, inflight = i+1, -1
 			}
 		}
